@@ -9,7 +9,7 @@ EXTENDS DigestDefs
 CONSTANTS Part, Muts
 VARIABLE case
 
-Insts == {<<>>, <<T("inst", "a")>>, <<T("inst", "a"), T("inst", "c-d")>>}
+Insts == {<<>>, <<T("inst", "a")>>, <<T("inst", "a"), T("inst", "c-d")>>, <<T("inst", "a"), T("inst", "..")>>}
 Hashes == {"h32", "h40", "h64", "h96", "h128"}
 Digs == {<<T("hash", h)>> : h \in Hashes} \cup {<<T("fn", "sha256tree"), T("hash", "h64")>>, <<T("fn", "blake3"), T("hash", "h64")>>, <<T("fn", "gitsha1"), T("hash", "h40")>>}
 Kws == {<<T("kw", "blobs")>>, <<T("kw", "compressed-blobs"), T("comp", "zstd")>>, <<T("kw", "compressed-blobs"), T("comp", "deflate")>>}
@@ -17,7 +17,7 @@ Sizes == {"s0", "s123", "smax"}
 Trails == {<<>>, <<T("path", "foo.txt")>>, <<T("path", "dir"), T("kw", "blobs")>>}
 ValidRead == {i \o k \o d \o <<T("size", s)>> : i \in Insts, k \in Kws, d \in Digs, s \in Sizes}
 ValidWrite == {i \o <<T("kw", "uploads"), T("uuid", "u")>> \o k \o d \o <<T("size", s)>> \o t : i \in Insts, k \in Kws, d \in Digs, s \in {"s123"}, t \in Trails}
-Alphabet == {T("inst", "a"), T("inst", "operations"), T("kw", "blobs"), T("kw", "compressed-blobs"), T("kw", "uploads"), T("comp", "zstd"), T("comp", "bogus"), T("comp", "identity"),
+Alphabet == {T("inst", "a"), T("inst", "operations"), T("inst", "."), T("kw", "blobs"), T("kw", "compressed-blobs"), T("kw", "uploads"), T("comp", "zstd"), T("comp", "bogus"), T("comp", "identity"),
              T("fn", "sha256tree"), T("fn", "gitsha1"), T("fn", "sha256"), T("fn", "nope"), T("uuid", "u"), T("path", "foo.txt"), T("empty", "")}
               \cup {T("hash", h) : h \in DOMAIN HashLen} \cup {T("size", s) : s \in DOMAIN SizeClass}
 Mutations(s) ==
@@ -30,7 +30,8 @@ Mut2(s) == IF Muts = 1 THEN Mutations(s) ELSE UNION {Mutations(m) : m \in Mutati
 
 Comps == {"a", "b", "blobs", "uploads", "operations", "Blobs", "x y"}
 AllFns == DOMAIN FnLen
-DigestRecs == [inst : {<<>>, <<"a">>, <<"a", "b">>, <<"a", "b", "c-d">>}, fn : AllFns, hash : {"p", "q"}, size : {0, 5}]
+\* instance names include components that a path cleaner would rewrite ("." and "..")
+DigestRecs == [inst : {<<>>, <<"a">>, <<"a", "b">>, <<"a", "b", "c-d">>, <<".">>, <<"a", "..">>, <<"..", "a">>}, fn : AllFns, hash : {"p", "q"}, size : {0, 5}]
 \* d1/d2: one object under instance names "" and "a"; d3/d4: the empty blob under "" and "a"; d5: another object under "b".
 \* In a set they are ordered d1 < d2 < d3 < d4 < d5, so that instance names interleave.
 Elems == {"d1", "d2", "d3", "d4", "d5"}
